@@ -500,10 +500,11 @@ def init_trace_state(spec):
 	return nodes
 
 
-def oracle_C01(spec, tr, init):
+def oracle_C01(spec, tr, init, tol=None):
 	"""Conservation identities on a trace (list of states in edge layout). init = model's initial state
 	(state_vars[0] before period 0). Returns list of failure strings."""
 	bad = []
+	ne = (lambda x, y: x != y) if not tol else (lambda x, y: abs(x - y) > tol)          # tol: streams outside the exact regime
 	pos, edges, inE, outE = layout(spec)
 	prev = init
 	for t, st in enumerate(tr):
@@ -511,14 +512,14 @@ def oracle_C01(spec, tr, init):
 			if 'newFG' not in nd:
 				continue
 			io = sum((st['edges'][e]['io'] for e in outE[i]), F(0))
-			if nd['il'] != prev['nodes'][i]['il'] + nd['newFG'] - io:
+			if ne(nd['il'], prev['nodes'][i]['il'] + nd['newFG'] - io):
 				bad.append('t=%d node%d: IL %s != prev IL %s + produced %s - orders received %s' % (
 					t, i, nd['il'], prev['nodes'][i]['il'], nd['newFG'], io))
-			if nd['pfg'] != prev['nodes'][i]['pfg'] + nd['oqfg'] - nd['newFG']:
+			if ne(nd['pfg'], prev['nodes'][i]['pfg'] + nd['oqfg'] - nd['newFG']):
 				bad.append('t=%d node%d: pending finished goods not conserved' % (t, i))
 			for e in inE[i]:
 				ed, pe = st['edges'][e], prev['edges'][e]
-				if ed['rm'] != pe['rm'] + ed['is'] - nd['newFG']:
+				if ne(ed['rm'], pe['rm'] + ed['is'] - nd['newFG']):
 					bad.append('t=%d edge%d: raw material %s != prev %s + received %s - consumed %s' % (
 						t, e, ed['rm'], pe['rm'], ed['is'], nd['newFG']))
 		for e, (a, b) in enumerate(edges):
@@ -526,16 +527,16 @@ def oracle_C01(spec, tr, init):
 			if b is not None:
 				# shipped into the pipeline this period: supplier's outbound shipment, or the order itself (external supplier)
 				inflow = ed['os'] if a is not None else ed['oq']
-				if sum(ed['ispl'], F(0)) + ed['idi'] + ed['is'] != sum(pe['ispl'], F(0)) + pe['idi'] + inflow:
+				if ne(sum(ed['ispl'], F(0)) + ed['idi'] + ed['is'], sum(pe['ispl'], F(0)) + pe['idi'] + inflow):
 					bad.append('t=%d edge%d%s: shipped != received + in transit + held at the door' % (t, e, (a, b)))
 			if a is not None and b is not None:
 				# orders on their way to the supplier: what was in the order pipeline, plus the order placed now, is either received by the
 				# supplier now or still in the pipeline - an order is never lost or duplicated on the way
-				if sum(ed['iopl'], F(0)) + ed['io'] != sum(pe['iopl'], F(0)) + ed['oq']:
+				if ne(sum(ed['iopl'], F(0)) + ed['io'], sum(pe['iopl'], F(0)) + ed['oq']):
 					bad.append('t=%d edge%d%s: orders in transit to the supplier not conserved (pipeline %s + received %s != previous pipeline %s + ordered %s)' % (
 						t, e, (a, b), [str(x) for x in ed['iopl']], ed['io'], [str(x) for x in pe['iopl']], ed['oq']))
 			if a is not None:
-				if ed['bo'] + ed['odi'] + ed['os'] != pe['bo'] + pe['odi'] + ed['io']:
+				if ne(ed['bo'] + ed['odi'] + ed['os'], pe['bo'] + pe['odi'] + ed['io']):
 					bad.append('t=%d edge%d%s: ordered units not all shipped/backordered/held (BO %s ODI %s OS %s vs prev BO %s ODI %s IO %s)' % (
 						t, e, (a, b), ed['bo'], ed['odi'], ed['os'], pe['bo'], pe['odi'], ed['io']))
 		prev = next_state(spec, st)
